@@ -17,7 +17,17 @@ try:
 except Exception as _ex:  # the generator itself broke: same fallback as an unparseable source
     GEN_STATUS = {"CmpGen": "unparsed generator-failed: %s" % str(_ex)[:200], "DigitsEstGen": "unparsed generator-failed"}
 
+# round 4: coq/gen/HashGen.v (Repr::hash order, Sign discriminants, derive lists, TypedReprRef::cmp, IBig::cmp, the table of
+# comparison impls of integer/src/cmp.rs) - proved equal to the models in Int/HashSeqProofs.v, replayed by the oracle
+try:
+    import translate_c05_r4
+    GEN_STATUS.update(translate_c05_r4.generate(core.REPO, os.path.join(core.COQ, "gen")))
+except Exception as _ex:
+    GEN_STATUS["HashGen"] = "unparsed generator-failed: %s" % str(_ex)[:200]
+
 GEN_TIES = {
+    "HashGen": "C05_repr_hash_gen_is_model, C05_sign_disc_gen_is_model, C05_int_derive_lists, C05_typed_cmp_gen_is_model, "
+               "C05_ibig_cmp_gen_is_model, C05_int_cmp_impl_table",
     "CmpGen": "C05_fbig_eq_gen_is_model, C05_repr_cmp_gen_is_model, C05_q_repr_eq_gen_is_model, C05_q_repr_cmp_gen_is_model, "
               "C05_rbig_gen_is_model, C05_derive_lists, C05_no_structural_hash, C05_fbig_ord_any_context, C05_relaxed_by_value",
     "DigitsEstGen": "C05_digits_ub_contract, C05_digits_ub_hypothesis, C05_digits_ub32_is_gen, C05_float_cmp_with_f32_estimate",
@@ -29,12 +39,86 @@ def extra_phase(tier, seed, exes, oracle):
     for name in sorted(GEN_STATUS):
         st = GEN_STATUS[name]
         word = st.split(" ", 1)[0]
-        hist["translator_c05_r3:%s:%s" % (name, word)] = 1
-        samples.append({"fragment": "coq/gen/%s.v (tools/translate_c05_r3.py from float/src/cmp.rs, float/src/repr.rs, "
+        hist["TRANSLATOR_C05:%s:%s" % (name, word)] = 1
+        samples.append({"fragment": ("coq/gen/%s.v (tools/translate_c05_r4.py from integer/src/repr.rs, cmp.rs, ubig.rs, ibig.rs, base/src/sign.rs)" % name)
+                                    if name == "HashGen" else
+                                    "coq/gen/%s.v (tools/translate_c05_r3.py from float/src/cmp.rs, float/src/repr.rs, "
                                     "rational/src/cmp.rs, rational/src/rbig.rs)" % name,
                         "status": st,
                         "tied_by": GEN_TIES[name] if word == "ok" else "correspondence run only (source not parsed; previous copy marked STALE)"})
-    return {"evaluations": 0, "hist": hist, "nontrivial": [], "samples": samples, "failures": []}
+    res = {"evaluations": 0, "hist": hist, "nontrivial": [], "samples": samples, "failures": []}
+    w32_phase(tier, seed, oracle, res)
+    return res
+
+
+def w32_phase(tier, seed, oracle, res):
+    """round 4: the integer-level cases (values along routes with their Hash call sequences, every comparison impl, single
+    operations with their layout, radix parsing) on the force_bits="32" build: the theorems are for every word size, the
+    hash call sequence DEPENDS on it (C05_hash_depends_on_word_size) - the oracle evaluates the same extracted models at
+    w = 32 (the harness marks its answers W20)."""
+    global W
+    try:
+        exe, out = core.harness_build(HARNESS_BIN, "w32")
+    except Exception as ex:
+        exe, out = None, str(ex)
+    if exe is None:
+        res["failures"].append({"kind": "w32-harness-build-failed", "detail": (out or "")[-800:]})
+        return
+    rng = core.Rng((seed or 0) ^ 0x32053205)
+    n = 500 if tier == "quick" else 12000
+    W = 32
+    try:
+        cases = []
+        while len(cases) < n:
+            k = rng.below(10)
+            cases.append(int_case(rng, tier) if k < 5 else rat_case(rng, tier) if k < 7 else iop_case(rng, tier) if k < 9 else ipar_case(rng, tier))
+    finally:
+        W = 64
+    cases = list(enumerate(W32_CORPUS + cases))
+    timeout = CASE_TIMEOUT.get(tier, 30)
+    answers = core.run_sharded(exe, cases, case_timeout=timeout)
+
+    def marked(ans):  # panics carry no word-size mark (the shared line protocol writes them): this run knows its build
+        return ans if ans.split()[-1:] == ["W20"] or not ans.startswith("panic") else ans + " W20"
+    verdicts = core.run_sharded(oracle, [(i, "%s => %s" % (t, marked(answers.get(i, "noanswer")))) for i, t in cases], case_timeout=max(timeout, 60))
+    res["evaluations"] += len(cases)
+    hist = res["hist"]
+    for i, t in cases:
+        v = verdicts.get(i, "noverdict")
+        toks = v.split()
+        verdict = toks[0] if toks else "noverdict"
+        kv = dict(x.split("=", 1) for x in toks[1:] if "=" in x)
+        op = t.split(" ", 1)[0]
+        hist["W32:op:" + op] = hist.get("W32:op:" + op, 0) + 1
+        if "asis" in kv:
+            hist["W32:asis:" + kv["asis"]] = hist.get("W32:asis:" + kv["asis"], 0) + 1
+        if kv.get("nt", "1") == "1" and verdict == "pass":
+            res["nontrivial"].append("w32 " + t)
+        ans = answers.get(i, "")
+        bad = None
+        if verdict not in ("pass", "skip"):
+            bad = "verdict " + v[:200]
+        elif kv.get("asis") == "diff":
+            bad = "model (w = 32) differs from the implementation"
+        elif ans.startswith("ok") and ans.split()[-1] != "W20":
+            bad = "answer not marked W20: the harness was not built with 32-bit words"
+        if bad and len(res["failures"]) < 5:
+            res["failures"].append({"kind": "w32", "config": "w32", "case": t[:2000], "impl": ans[:2000], "oracle": v[:300], "why": bad})
+    res["samples"].append({"w32_cases": len(cases), "asis_same": hist.get("W32:asis:same", 0), "asis_diff": hist.get("W32:asis:diff", 0)})
+
+
+# 32-bit corpus: 2^32 needs two words there (one on 64 bits: the hash call sequences differ), 2^64 is the inline/heap border
+W32_CORPUS = [
+    "uint 2 100000000 words 0 100000000 shlr 20",
+    "uint 2 ffffffffffffffff ones 40 10000000000000000 addsub 1",
+    "int 2 -10000000000000000 parts 0 -ffffffffffffffff addsub -1",
+    "rbig 2 100000001 10000000000000001 parts 0 100000001 10000000000000001 scaled 3",
+    "rlx 2 0 7 sub_int 1 0 1 parts 0",
+    "iop gcd 1000000000000000000000000 -10000000000000000",
+    "iop sqrtrem ffffffffffffffffffffffffffffffff 0",
+    "iop pow -100000001 5",
+    "ipar i a x2d31383434363734343037333730393535313631365f30",
+]
 
 
 ID = "C05"
@@ -87,28 +171,55 @@ LEVEL_TEXT = ("Machine-checked Coq theorems over faithful models of the comparis
               "(core::f32::consts::LOG10_2 >= log10 2 proved with CoqInterval's exp on plain Z); hence repr_cmp_same_base run with that "
               "estimate is the value order (C05_float_cmp_with_f32_estimate). The models are tied to the code by a "
               "correspondence run that reads the real layout through a hook, checks canonical layout / normalisation / reducedness of "
-              "every value built (the booleans evaluated are proved equivalent to the invariants) and replays the extracted models.")
+              "every value built (the booleans evaluated are proved equivalent to the invariants) and replays the extracted models. "
+              "ROUND 4: (integers) gcd, gcd_ext, sqrt, sqrt_rem, nth_root, pow and from_str_radix at Repr level: the dispatch of "
+              "gcd_ops.rs / root_ops.rs on the typed view, the reduction of a large operand by a word / double word (Bezout identity "
+              "of gcd_ext_word / gcd_ext_dword proved), the signs of IBig::gcd_ext / nth_root, composed with C12's as-is models (Lehmer "
+              "gcd and extended gcd, the Karatsuba square root with its pre/post shift, Newton, the primitive u8..u128 routines), C01's "
+              "WORD-LEVEL model of pow.rs (total: never fails) and C07's word-level parser, return a canonical representation of the "
+              "gcd / Bezout cofactors / root (certificate) / power / parsed value for every word size >= 8 (sqrt: the widths 8..64 the "
+              "primitive routines exist for); the history theorem ranges over these too (C05_producer_history_values_compare); the "
+              "bodies of TypedReprRef::cmp (with the Small < Large shortcut) and IBig::cmp, the order of the fields Repr::hash feeds, the "
+              "discriminants of Sign, the derive lists of UBig / IBig / Sign and the table of comparison impls of integer/src/cmp.rs are "
+              "REGENERATED on every run and proved equal to the models: UBig and IBig have no == / < / cmp against each other or against "
+              "primitives, every mixed AbsOrd / AbsEq impl reads the two magnitudes only; (hashing) Hash::hash of UBig / IBig / RBig as "
+              "the sequence of Hasher calls - write_isize(discriminant of the sign), write_usize(number of words: the length prefix of a "
+              "slice), ONE write of all words in native byte order, numerator then denominator for RBig: equal values make identical "
+              "call sequences, so ANY hasher (any state type and methods, any starting state) ends in the same state and hash, for "
+              "every word size and both byte orders; the sequence determines the value; and it DEPENDS ON THE WORD SIZE - for every "
+              "non-zero value the sequences of two builds with different word sizes differ (C05_hash_depends_on_word_size): the hash "
+              "of a big integer is not a cross-build constant (nor byte-order independent); (floats) the replayed producer of Context::"
+              "add/sub/mul/div/inv/sqrt/sqr/cubic now IS C03's model of the repaired code with every Repr::new (C05_fprod_is_c03_model; "
+              "the private Context::div model of round 3 is dropped), and C11's as-is models of powi, exp, exp_m1, ln, ln_1p, powf "
+              "return normalised representations for every base, precision, mode, operand, fuel and f32 estimate layer "
+              "(C05_float_elem_normalized), so == / cmp follow the value on everything they return (C05_float_eq_sound_on_producers3).")
 LEVEL_NOTE = ("Trusted: Coq kernel, extraction (FastZ.v), zarith, the harness and the thin OCaml driver. Modelled, not verified: the Rust "
-              "sources. Only compared at run time, not proved: (a) integer results of gcd, roots, pow, radix and byte conversion: "
-              "the layout hook checks each such value; they are covered by the theorems only under 'the result is stored through "
-              "from_buffer/with_sign' (C05_store_value / C05_store_fit). For division and the signed bit operators / shifts the kernels "
-              "are the transcriptions of C02 / C09, but their results reach the Repr through the same generic last step (store_fit = "
-              "from_buffer + with_sign on the value) rather than through a word-by-word model of the buffer the operation leaves; the new "
-              "op `iop` compares value, length and inline flag of every output with that composed model on each run; "
-              "(b) float exp/ln/powi, f32/f64 and rational sources (normalisation checked per case on their routes); that the pair "
-              "C03's model returns is what the code hands to Repr::new is compared, not proved: the new op `fprod` replays "
-              "fprod_asis (C03's as-is model of Context::add/sub/mul/div/inv/sqrt/sqr/cubic, then Repr::new; proved normalised: "
-              "C05_float_fprod_normalized) with the digit estimates the run reports and compares significand, exponent and flag with the "
-              "Repr the library returned - fidelity 100 % after Context::div was modelled with its normalised shortened dividend "
-              "(ctx_div_n; C03's ctx_div keeps the unnormalised pair and then deviates from the code in rare cases); the "
-              "ln/exp route of convert_base (|exponent| > 38) is not modelled; (c) the log2 estimators themselves (C12's property; the op "
-              "`dub` checks the two hypotheses of C05_digits_ub_contract on the reported f32 estimates of every case) and significands of "
-              "B^(2^24) or more; (d) the hasher call sequence. Regenerated bodies: if float/src/cmp.rs, float/src/repr.rs or "
-              "rational/src/cmp.rs is rewritten outside the translator's grammar the last good copy of coq/gen/CmpGen.v / DigitsEstGen.v "
-              "is kept (status `unparsed` in the evidence) and the correspondence run alone ties the models. No open finding: "
+              "sources. Only compared at run time, not proved: (a) integer results of byte conversion, ilog / remove, the modular ring, and "
+              "the buffer a gcd / root / division leaves WORD BY WORD: gcd, gcd_ext, sqrt, sqrt_rem, nth_root, from_str_radix, division and the "
+              "signed bit operators reach the Repr through the generic last step (store_fit = from_buffer + with_sign on the value the cited "
+              "as-is model returns) - their canonicity is a theorem, the value is the cited theorem of C12 / C07 / C02 / C09, stated for the "
+              "answers the models give (C12's models are partial: `= Ok r` is a premise; pow is total); the op `iop` / `ipar` compares value, "
+              "length and inline flag of every output with the composed model on each run, on the 64-bit and on the force_bits=32 build; "
+              "coefficient ranges of the primitive gcd_ext (SignedDoubleWord) are not modelled; "
+              "(b) f32/f64 and rational sources of floats (normalisation checked per case on their routes); that the pair C03's model "
+              "returns is what the code hands to Repr::new is compared, not proved: the op `fprod` replays fprod_asis (C03's models of the "
+              "repaired Context::add/sub/mul/div/inv/sqr/cubic and of sqrt with every Repr::new inside; proved normalised, and proved to "
+              "be C03's model itself on stored operands) with the digit estimates the run reports and compares significand, exponent and "
+              "flag with the Repr the library returned - fidelity 100 %; exp / ln / powi / powf: C11's check establishes the fidelity of "
+              "Float/ElemAsis.v, here their results are proved normalised and each case on these routes is checked for normalisation; the "
+              "ln/exp route of convert_base (|exponent| > 38) is C08's model, not cited here; (c) the log2 estimators themselves (C12's "
+              "property; the op `dub` checks the two hypotheses of C05_digits_ub_contract on the reported f32 estimates of every case) and "
+              "significands of B^(2^24) or more; (d) hashing: that core's `impl Hash for [u64]` is write_length_prefix (= write_usize) plus ONE "
+              "write of the native-endian bytes and that derive(Hash) on Sign hashes the discriminant as isize are facts of the Rust "
+              "standard library, transcribed in Int/HashSeqModel.v and compared on every uint / int / rbig case with a recording Hasher "
+              "that overrides EVERY method of the trait (64-bit and 32-bit words, little endian only: the big-endian branch of the model is "
+              "never run). Regenerated bodies: if float/src/cmp.rs, float/src/repr.rs, rational/src/cmp.rs, integer/src/cmp.rs or "
+              "integer/src/repr.rs is rewritten outside the translators' grammar the last good copy of coq/gen/CmpGen.v / DigitsEstGen.v / "
+              "HashGen.v is kept (status `unparsed` in the evidence) and the correspondence run alone ties the models. No open finding: "
               "ones(2*word bits) on the heap and the float precision shortcut were repaired in /repo.")
-TECHNIQUE = ("Coq proof over as-is models of the comparison/representation code (comparison bodies and digit-estimate arms regenerated "
-             "from the Rust source on every run) + extracted-model correspondence run with layout hook")
+TECHNIQUE = ("Coq proof over as-is models of the comparison/representation/hashing code (comparison bodies of all three crates, the Hash "
+             "field order and the digit-estimate arms regenerated from the Rust source on every run) + extracted-model correspondence run "
+             "with layout hook and recording Hasher, on 64-bit and 32-bit word builds")
 RULE = ("cases = 2 or 3 values each produced along a route (from_words, padded words, +/- cancel in three operator forms, shifts, "
         "mul/div, div_rem, rem, clone, clone_from into larger/smaller buffers, bytes, radix text, ones, primitives, via IBig, bit set/clear, "
         "split_bits, masks; floats: from_repr, from_parts, scaled significands, with_precision, arithmetic at unlimited precision, "
@@ -134,6 +245,16 @@ RULE = ("cases = 2 or 3 values each produced along a route (from_words, padded w
         "{sums/differences ending in zero digits, cancellation, far apart (digit-estimate branch), zero/one, cofactor products, perfect "
         "squares, negative radicand, zero divisor, precision 0}: result normalised with canonical significand, and significand, "
         "exponent, flag equal to the replayed model. "
+        "Round 4: iop also = gcd, gcd_ext (UBig and IBig forms) x {inline x inline, large x word, large x double word, large x large, "
+        "common factors, equal / zero operands, gcd(0,0)}, sqrt / sqrt_rem next to perfect squares of 1..8 words and of a negative "
+        "number, nth_root for n in {0, 1, 2, 3, 5, 7, 10, 64, 65, 200} incl. bit length <= n and negative operands, pow of word / double-"
+        "word / large bases with trailing zero bits: value (gcd_ext: gcd + Bezout identity), canonical layout, value/length/inline flag "
+        "against the composed model; op ipar = from_str_radix for radices 2..36 x digit counts around word and chunk borders, leading "
+        "zeros, underscores, sign, upper case, error texts; rationals: Relaxed (and RBig) values - above all ZEROS - out of the mixed "
+        "operators Relaxed +- UBig/IBig in every operand order and ownership, which keep the denominator (0/5, 0/7, 0/(2^64+1), squares "
+        "of such zeros), compared with Relaxed::ZERO, with each other and with +-1/d; fprod with a zero first operand (0 - x rounds -x); "
+        "extra phase: 500 (thorough 12000) uint / int / rbig / rlx / iop / ipar cases on the force_bits=32 build, the same extracted "
+        "models evaluated at w = 32 (hash call sequences with 4-byte words and 32-bit boundaries). "
         "A case is non-trivial when the oracle checked layout, value and every pair answer; distinct = distinct case texts.")
 EXPLANATION = ("Theorems (coq/props/C05.v) are about models transcribed from integer/src/{repr,cmp,buffer}.rs, float/src/{cmp,repr,utils}.rs, "
                "rational/src/cmp.rs. Each run builds values along many routes in the real library, reads capacity/len/inline through "
@@ -146,7 +267,11 @@ EXPLANATION = ("Theorems (coq/props/C05.v) are about models transcribed from int
                "Ratio/RatioOrdGen.v (theorems over coq/gen/CmpGen.v, the comparison bodies regenerated from float/src/cmp.rs and "
                "rational/src/cmp.rs by tools/translate_c05_r3.py at plug-in import; the oracle replays these generated bodies), "
                "Float/DigitsUbProof.v + Float/Log10Const.v (the f32 digit estimate, arms regenerated into coq/gen/DigitsEstGen.v, "
-               "binary32 arithmetic = Flocq's, Cross/XLog2Model.v).")
+               "binary32 arithmetic = Flocq's, Cross/XLog2Model.v). Round 4: Int/ReprOrdArith3Model.v + ReprOrdArith3.v (gcd, gcd_ext, roots, pow, "
+               "radix parsing over the models of C12 Int/Grl*.v, C01 Int/RingPowW.v, C07 Int/IoBigModel.v), Int/HashSeqModel.v + HashSeqProofs.v "
+               "(call sequence of Hash::hash, any Hasher, word-size dependence; theorems over coq/gen/HashGen.v, regenerated by "
+               "tools/translate_c05_r4.py from integer/src/{repr,cmp,ubig,ibig}.rs and base/src/sign.rs), Float/FloatOrdProducers3.v (the "
+               "replayed producer = C03's Float/FixModel.v models; C11's Float/ElemAsis.v producers normalised).")
 TRUSTED_BASE = [
     "Coq 8.16.1 kernel (coqc); vm_compute only in closed examples and the refutation witnesses",
     "extraction: ExtrOcamlBasic + ExtrOcamlZBigInt + coq/extract/FastZ.v; OCaml 4.13.1 + zarith 1.12; oracle/common.ml, oracle/driver_c05.ml",
@@ -165,11 +290,20 @@ TRUSTED_BASE = [
     "exponents and digit counts are read as integers) -> coq/gen/CmpGen.v, coq/gen/DigitsEstGen.v at plug-in import; reports unparsed "
     "and keeps the last good copy when the source is rewritten; the reading of the method / field atoms (is_infinite, sign, cmp, abs_cmp, "
     "bit_len, abs_diff, shl_digits, Sign * Ordering ...) as their Gallina counterparts is a fixed table in that script",
+    "the Rust standard library facts behind Int/HashSeqModel.v: `impl Hash for [T]` = write_length_prefix(len) (default: write_usize) + "
+    "T::hash_slice, which for u32/u64 is one Hasher::write of the slice's bytes in native order; derive(Hash) on a field-less enum "
+    "hashes the discriminant as isize; derive(Hash) on a one-field tuple struct hashes the field (rustc 1.95; compared on every run)",
+    "tools/translate_c05_r4.py (regular expressions over the comment-stripped source; anything outside the expected shapes is `unparsed`) "
+    "-> coq/gen/HashGen.v at plug-in import",
+    "the as-is models of C12 (Int/GrlModel.v, GrlLehmer.v, GrlKsqrt.v, GrlPrimRoot.v), C01 (Int/RingPowW.v) and C07 (Int/IoBigModel.v) are "
+    "those properties' transcriptions; rem_by_word / rem_by_dword inside gcd_large_dword and the quotient of gcd_ext_word are taken at "
+    "their Z meaning (C02); C03's Float/FixModel.v and C11's Float/ElemAsis.v likewise",
     "the as-is division kernels and sign tables of C02 (Int/DivSrcInst.v, Int/DivSpec.v) and the signed bit / shift kernels of C09 "
     "(Int/BitsKernels.v) are those properties' transcriptions; C03's Float/AddModel.v, Float/DivMulModel.v likewise",
 ]
 ASSUMPTIONS = [
-    "64-bit words in the correspondence run (the integer theorems hold for every word size w > 0)",
+    "64-bit and 32-bit words in the correspondence run, little-endian target (the integer theorems hold for every word size w >= 8, the "
+    "hash theorems for both byte orders)",
     "exponents and precisions stay far below isize::MAX (the additions exp + precision in repr_cmp_same_base do not overflow)",
     "capacities below Buffer::MAX_CAPACITY (the .min(MAX_CAPACITY) in default_capacity is not modelled)",
 ]
@@ -226,7 +360,9 @@ def route_u(rng, v):
               "divrem", "rem", "clone", "clonefrom_big", "clonefrom_small", "bytes_le", "bytes_be", "radix", "ibig", "negneg",
               "unsigned_abs", "setclr", "split_lo", "split_hi", "and", "xorxor", "orandnot", "addsub_top"]
     if v < (1 << 128):
-        routes += ["prim", "dword", "prim", "dword"]
+        routes += ["prim", "prim"]
+    if v < (1 << (2 * W)):
+        routes += ["dword", "dword"]
     if v & (v + 1) == 0:
         routes += ["ones"] * 8
     r = rng.choice(routes)
@@ -686,7 +822,49 @@ def rat_related(rng, n, d):
     return rat_value(rng)
 
 
+MIXED_X = ["sub_int", "sub_int_ref", "sub_int_rv", "int_sub", "add_int", "int_add", "sub_ubig", "ubig_sub", "add_ubig", "sub_int_neg",
+           "sub_int_clone"]
+MIXED_Q = ["sub_int", "sub_int_ref", "int_sub", "add_int", "int_add", "sub_ubig", "ubig_sub", "relax_sub_int_canon"]
+ZERO_DENS = [5, 7, 9, 3, 15, 21, 1, 6, 12, (1 << 64) + 1, (1 << 64) - 1, (1 << 130) + 1, (1 << 63) + 1, 0xffff_ffff, 25]
+
+
+def mixed_param(rng, route):
+    p = rng.choice([1, 2, 3, 7, 255, (1 << 64) + 1, (1 << 64) - 1, gen_mag(rng, 2), gen_mag(rng, 3)])
+    if "ubig" not in route and rng.chance(1, 2):
+        p = -p
+    return p
+
+
+def rat_mixed_case(rng, tier):
+    """round 4: values - above all ZEROS - that come out of the mixed operators Relaxed (+|-) UBig/IBig, which keep the
+    denominator (Relaxed 7/7 - 1 = 0/7, 5 - 25/5 = 0/5, -21/7 + 3 = 0/7): zeros with a denominator other than 1 (odd and
+    >= 5, so that reduce2 of the constructor leaves it alone), two zeros whose denominators differ by two or more bits,
+    against Relaxed::ZERO, against +-1/d, and the same histories on RBig (which must stay reduced)."""
+    rb = rng.chance(1, 4)
+    k = 3 if rng.chance(1, 3) else 2
+    vals = []
+    zero = rng.chance(3, 4)
+    for i in range(k):
+        d = rng.choice(ZERO_DENS)
+        if zero and (i == 0 or rng.chance(3, 4)):
+            n = 0
+        elif rng.chance(1, 2):
+            n = rng.choice([1, -1, 2, -2]) * (1 if rng.chance(1, 2) else d)
+        else:
+            n, d = rat_value(rng)
+        r = rng.choice(MIXED_Q if rb else MIXED_X + (["sub_int_sqr"] if n == 0 else []))
+        if rng.chance(1, 6):
+            r = "parts"
+        vals.append((n, d, r, mixed_param(rng, r) if r != "parts" else 0))
+    toks = ["rbig" if rb else "rlx", "%x" % k]
+    for (n, d, r, p) in vals:
+        toks += [hx(n), hx(d), r, hx(p)]
+    return " ".join(toks)
+
+
 def rat_case(rng, tier):
+    if rng.chance(1, 5):
+        return rat_mixed_case(rng, tier)
     rb = rng.chance(1, 2)
     k = 3 if rng.chance(1, 4) else 2
     vals = [rat_value(rng)]
@@ -701,10 +879,13 @@ def rat_case(rng, tier):
                 routes.append("sqr_div")
         else:
             routes = ["parts", "signed", "scaled", "scaled", "addsub", "muldiv", "negneg", "clone", "relax", "as_relaxed"]
-        if abs(n) < (1 << 128) and d < (1 << 128):
+        if abs(n) < (1 << (2 * W)) and d < (1 << (2 * W)):
             routes += ["const", "const"]
+        routes += ["sub_int", "int_sub", "add_int"] + ([] if rb else ["int_add", "sub_ubig", "sub_int_neg"])
         r = rng.choice(routes)
         p = 0
+        if r in MIXED_X:
+            p = mixed_param(rng, r)
         if r in ("scaled", "relax_scaled_canon"):
             p = rng.choice([1, 2, 3, 6, 12, 1 << 64, (1 << 64) + 1, gen_mag(rng, 2), gen_mag(rng, 3)])
             # the unreduced input of the harness is (n*p, d*p): keep p odd sometimes so that Relaxed stays unreduced
@@ -714,13 +895,97 @@ def rat_case(rng, tier):
         if r in ("parts", "signed", "clone", "negneg", "relax_canon", "relax", "as_relaxed", "into_parts") and rng.chance(1, 2):
             t = rng.choice([2, 3, 5, 6, 9, 1 << 64, (1 << 64) - 1])
             n, d = n * t, d * t
-            if r == "const" and (abs(n) >= (1 << 128) or d >= (1 << 128)):
+            if r == "const" and (abs(n) >= (1 << (2 * W)) or d >= (1 << (2 * W))):
                 r = "parts"
         toks += [hx(n), hx(d), r, hx(p)]
     return " ".join(toks)
 
 
 # ------------------------------------------------------------------------------------------------ round 3
+IOPS4 = ["gcd", "ugcd", "gcdext", "ugcdext", "sqrt", "sqrtrem", "nthroot", "unthroot", "pow", "upow"]
+
+
+def iop4_case(rng, tier, op):
+    """round 4: gcd / gcd_ext (inline x inline, large x word, large x double word, large x large; common factors, equal and
+    zero operands), square roots next to perfect squares of 1..8 words, n-th roots incl. n = 1, 2, bit length <= n, powers of
+    word / double-word / large bases with trailing zero bits"""
+    wb = W
+    if op in ("gcd", "ugcd", "gcdext", "ugcdext"):
+        k = rng.below(10)
+        g = rng.choice([1, 1, 2, 3, (1 << wb) - 1, (1 << wb) + 1, gen_mag(rng, rng.choice([1, 2, 3]))])
+        a = g * (gen_mag(rng, rng.choice([1, 1, 2, 2, 3, 4, 6])) >> rng.choice([0, 0, 7, wb // 2]))
+        if k < 2:
+            b = g * rng.choice([1, 2, 3, (1 << wb) - 1, rng.bits(wb) + 1])             # a word
+        elif k < 4:
+            b = g * (rng.bits(2 * wb) | (1 << (2 * wb - 1))) >> rng.choice([0, 1, wb - 1])  # a double word
+        elif k == 4:
+            b = rng.choice([0, a, a + 1, 2 * a, 1])
+        elif k == 5:
+            a, b = rng.choice([(0, 0), (0, g), (g, 0)])
+        else:
+            b = g * gen_mag(rng, rng.choice([1, 2, 3, 3, 4, 5, 8]))
+        if rng.chance(1, 2):
+            a, b = b, a
+        return "iop %s %s %s" % (op, hx(a * rng.choice([1, -1])), hx(b * rng.choice([1, -1])))
+    if op in ("sqrt", "sqrtrem"):
+        r = gen_mag(rng, rng.choice([1, 1, 2, 2, 3, 4])) >> rng.choice([0, 1, wb // 2, wb - 1])
+        a = rng.choice([r * r, r * r - 1, r * r + 1, r * r + 2 * r, gen_mag(rng, rng.choice([1, 2, 3, 4, 5, 8])), 0, 1, 2, 3])
+        a = abs(a)
+        if op == "sqrt" and rng.chance(1, 12):
+            a = -a - 1  # documented panic
+        return "iop %s %s 0" % (op, hx(a))
+    if op in ("nthroot", "unthroot"):
+        n = rng.choice([0, 1, 2, 2, 3, 3, 5, 7, 10, 64, 65, 200])
+        r = rng.bits(rng.range(1, 70)) + 1
+        a = rng.choice([r ** n if 0 < n <= 10 else r, (r ** n - 1) if 0 < n <= 10 else r + 1, gen_mag(rng, rng.choice([1, 2, 3, 4])),
+                        0, 1, (1 << n) - 1 if n < 300 else 1, 1 << n if n < 300 else 2])
+        if rng.chance(1, 3):
+            a = -a
+        return "iop %s %s %s" % (op, hx(a), hx(n))
+    # pow
+    k = rng.below(8)
+    e = rng.choice([0, 1, 2, 3, 3, 4, 5, 7, 10, 16, 33])
+    if k < 3:
+        a = rng.choice([2, 3, 10, (1 << wb) - 1, rng.bits(wb - 1) + 2])
+    elif k < 5:
+        a = rng.bits(2 * wb - 1) | (1 << wb)
+    elif k == 5:
+        a = rng.choice([0, 1])
+    else:
+        a = gen_mag(rng, rng.choice([3, 4]))
+        e = rng.choice([0, 1, 2, 3, 5])
+    if rng.chance(1, 2):
+        a <<= rng.choice([1, 5, wb, wb + 3])  # the trailing zero bits are split off and shifted back in
+    return "iop %s %s %s" % (op, hx(a * rng.choice([1, -1])), hx(e))
+
+
+def ipar_case(rng, tier):
+    """from_str_radix: digit counts around the word / chunk borders of the parser, leading zeros, underscores, a sign, and the
+    error texts (no digits, a digit outside the radix)"""
+    radix = rng.choice([2, 3, 8, 10, 10, 16, 16, 36, 7, 32])
+    v = rng.choice([0, 1, rng.bits(rng.range(1, 64)), gen_mag(rng, rng.choice([1, 2, 2, 3, 3, 4, 8])),
+                    (1 << (W * rng.choice([1, 2, 3]))) + rng.choice([-1, 0, 1]), gen_mag(rng, rng.choice([20, 40]))])
+    digs = "0123456789abcdefghijklmnopqrstuvwxyz"
+    t, x = "", v
+    while x:
+        t = digs[x % radix] + t
+        x //= radix
+    t = t or "0"
+    if rng.chance(1, 3):
+        t = "0" * rng.choice([1, 5, 40]) + t
+    if rng.chance(1, 3):
+        i = rng.below(len(t)) + 1
+        t = t[:i] + "_" + t[i:]
+    if rng.chance(1, 4):
+        t = t.upper()
+    ty = rng.choice(["u", "i"])
+    if rng.chance(1, 3):
+        t = rng.choice(["+", "-"] if ty == "i" else ["+"]) + t
+    if rng.chance(1, 20):
+        t = rng.choice(["", "-", "_", t + "z", t + digs[radix] if radix < 36 else t + "!"])
+    return "ipar %s %x x%s" % (ty, radix, t.encode().hex())
+
+
 IOPS = ["div", "rem", "divrem", "diveu", "remeu", "divremeu", "udivrem", "udiv", "urem",
         "and_vv", "and_vr", "and_rv", "and_rr", "or_vv", "or_vr", "or_rv", "or_rr", "xor_vv", "xor_vr", "xor_rv", "xor_rr",
         "not", "notref", "shr", "shrref", "shl", "shlref"]
@@ -739,6 +1004,8 @@ def iop_operand(rng, tier):
 
 def iop_case(rng, tier):
     """one operation; the operands sit at the inline/heap boundary, results cross it in both directions"""
+    if rng.chance(1, 3):
+        return iop4_case(rng, tier, rng.choice(IOPS4))
     op = rng.choice(IOPS)
     a = iop_operand(rng, tier)
     if op.startswith("sh") :
@@ -829,6 +1096,8 @@ def fprod_case(rng, tier):
         s2, e2, _ = flt_value(rng, b)
     if s2 == 0:
         e2 = 0
+    if op in ("add", "sub") and rng.chance(1, 10):
+        s1, e1 = 0, 0  # 0 - x: the repaired Context::sub rounds -x in the mode of the context (C03's ctx_sub_n)
     if op == "sqrt":
         if rng.chance(1, 2):
             r = gen_sig(rng, b) % (b ** 12) or 1
@@ -854,8 +1123,10 @@ def fprod_case(rng, tier):
 def gen_cases(rng, tier, n):
     out = []
     while len(out) < n:
-        k = rng.below(124)
-        if k >= 116:
+        k = rng.below(130)
+        if k >= 124:
+            out.append(ipar_case(rng, tier) if k < 126 else iop4_case(rng, tier, rng.choice(IOPS4)))
+        elif k >= 116:
             out.append(fprod_case(rng, tier))
         elif k >= 108:
             out.append(dub_case(rng, tier))
